@@ -66,9 +66,12 @@ def base_flags(std='gnu++17', defs=(), repo=REPO):
 
 
 def dump_units(sources, tag, std='gnu++17', defs=(), repo=REPO):
-    d = os.path.join(WORK, tag)
+    # (one directory per process: checks of different properties may run side by side and share a tag)
+    d = os.path.join(WORK, '%s.%d' % (tag, os.getpid()))
     shutil.rmtree(d, ignore_errors=True)
     os.makedirs(d)
+    import atexit
+    atexit.register(shutil.rmtree, d, True)
     flags = base_flags(std, defs, repo)
     jobs = []
     for s in sources:
